@@ -26,7 +26,40 @@ type Scenario struct {
 	Depth       int            `json:"depth"`            // bound on explored letters
 	Extend      []string       `json:"extend,omitempty"` // letters that may be repeated beyond Depth (up to ExtendDepth)
 	ExtendDepth int            `json:"extend_depth,omitempty"`
-	oracle      func(*obs) []mc.Violation
+	// Poison: before every execution, 18 other connections of the same process each end inside a
+	// message of this kind (truncated payload / wrong checksum / undecodable payload): whatever
+	// such a connection leaves behind in process-wide state must not reach the examined connection
+	Poison string `json:"failed_connections_first,omitempty"`
+	oracle func(*obs) []mc.Violation
+}
+
+// poison runs connections that fail inside readMessage (see Scenario.Poison).
+func poison(kind string) {
+	ping := netsim.Letters["ping"]
+	reject := netsim.Frame(wire.CmdReject, append([]byte{0xfd, 0xe8, 0x03}, make([]byte, 35)...)) // command string of declared length 1000, 35 bytes follow
+	for i := 0; i < 18; i++ {
+		s := netsim.Start(netsim.Options{TxManager: true})
+		s.Barrier(barrierWait)
+		for _, l := range []string{"version", "verack", "headers[bsv-split]"} {
+			s.Deliver(netsim.Letters[l])
+			s.Barrier(barrierWait)
+		}
+		for t0 := time.Now(); !s.Node.IsReady() && time.Since(t0) < 2*time.Second; {
+			time.Sleep(50 * time.Microsecond)
+		}
+		switch kind {
+		case "truncated":
+			s.Deliver(ping[:len(ping)-4]) // half of the 8-byte payload, then the peer is gone
+			s.Conn.PeerClose()
+		case "checksum":
+			bad := append([]byte{}, ping...)
+			bad[20] ^= 0xff
+			s.Deliver(bad)
+		case "undecodable":
+			s.Deliver(reject)
+		}
+		s.Finish(3 * time.Second)
+	}
 }
 
 // obs is what one run observed.
@@ -60,6 +93,9 @@ func blockHandler() func(s *netsim.Session) error { return nil }
 func execute(sc *Scenario, prop string, hist []string) *obs {
 	o := &obs{sc: sc, prop: prop, hist: hist, closedAt: -1, stuckAt: -1}
 	o.all = append(append([]string{}, sc.Prefix...), hist...)
+	if sc.Poison != "" {
+		poison(sc.Poison)
+	}
 	s := netsim.Start(sc.Opt)
 	o.s = s
 	// initial barrier: the node is up and has sent its version
